@@ -9,7 +9,10 @@ R1 bounded counter: `RecoveryRequest.version` is written only by `RecoveryReques
    `UnrecoverableWorkflowException` (anything else would be caught by the `recoverable` wrapper of
    `_do_handle_failure` and recovered again - an unbounded recursion).
 R2 every recovery is counted: `_synchronize_workflows` dominates `executor.run()` in `_recover`;
-   its not-recovering branch awaits `_update_request` for the tested job on every path; the
+   its not-recovering branch awaits `_update_request` for the tested job on every path (the test is located by
+   the provenance of the is_recovering answer - direct call, boolean local, extracted predicate, snapshot
+   collection / mapping, also handed over as a parameter: `_util_D.recovering_decision`, shared with C19.R5/R7,
+   which decides *where* the answer may be obtained); the
    requests handed to it always contain the failed job's own request; the exhaustion raised below
    is not swallowed by `_do_handle_failure` / `recover`.
 R3 the failed job is never mistaken for a recovering one: `recover` awaits
@@ -85,6 +88,7 @@ from ._util_D import (
     param_of_type,
     param_truth_domain,
     receiver_may_be,
+    recovering_decision,
     recovering_statuses,
     resolves_to,
     stage_calls,
@@ -284,17 +288,14 @@ def r2(ctx):
     # _synchronize_workflows: not recovering => _update_request(job)
     f = sync_def
     g = f.cfg
-    tests = []
-    for n in g.nodes.values():
-        if n.kind != "test":
-            continue
-        cs = [c for c in n.calls() if isinstance(c.func, ast.Attribute) and c.func.attr == "is_recovering"]
-        if not cs and isinstance(n.ast, ast.Name):
-            cs = [strip(o) for o in origins(f, n.ast) if isinstance(strip(o), ast.Call) and isinstance(strip(o).func, ast.Attribute) and strip(o).func.attr == "is_recovering"]
-        if cs:
-            tests.append((n, cs[0]))
-    ctx.require(len(tests) == 1, f"C17.R2: expected one is_recovering test in _synchronize_workflows, found {len(tests)}")
-    t, rc = tests[0]
+    # the test that separates `being recovered elsewhere` from `to be rolled back (and counted)`: a direct
+    # is_recovering() call, a boolean local, an extracted predicate or a snapshot of the answers (shared finder;
+    # *where* the answer is obtained is C19.R7's obligation, not a matter of counting)
+    try:
+        dec = recovering_decision(p, f, f"{RFM}._update_request")
+    except Uninterpretable as e:
+        ctx.require(False, f"C17.R2: {e}")
+    t, tested = dec.test, dec.job
     rparam = "retry_requests" if "retry_requests" in f.params else None
     loop = next((a for a in _ancestors_loops(t.ast) if isinstance(a, ast.For)), None)
     ok_loop = loop is not None and rparam is not None and isinstance(strip(loop.iter), ast.Name) and strip(loop.iter).id == rparam
@@ -302,13 +303,7 @@ def r2(ctx):
            message="the is_recovering test is not evaluated for each element of `retry_requests`")
     upd_calls = [c for c in f.calls() if resolves_to(p, f, c, [f"{RFM}._update_request"], attr_fallback=False)]
     uids = [i for c in upd_calls for i in g.node_containing(c)]
-
-    def call_false(n, v):
-        return v is False and (strip(n) is rc or (isinstance(n, ast.Name) and n is t.ast))
-
-    edges = branch_edges(g, t, call_false)
-    ctx.require(len(edges) == 1, "C17.R2: cannot tell which outcome of the is_recovering test means `not recovering`")
-    starts = succ(g, t.id, edges[0])
+    starts = succ(g, t.id, dec.no)
     heads = g.ids_of(loop) if loop is not None else []
     esc = None
     for s in starts:
@@ -317,14 +312,22 @@ def r2(ctx):
         esc = esc or g.path(s, [g.exit, *heads], avoid=uids)
         if s in (g.exit, *heads):
             esc = [s]
-    same_job = all(
-        c.args and unparse(strip(c.args[0])) == unparse(strip(rc.args[0])) if (c.args and rc.args) else False for c in upd_calls
-    ) if upd_calls else False
-    # ... and that job is the one the examined request stands for
-    of_request = bool(rc.args) and loop is not None and isinstance(loop.target, ast.Name) and all(
-        isinstance(strip(o), ast.Attribute) and strip(o).attr == "name" and isinstance(strip(o).value, ast.Name) and strip(o).value.id == loop.target.id
-        for o in origins(f, rc.args[0]))
-    same_job = same_job and of_request
+
+    def _of_request(e):
+        return e is not None and loop is not None and isinstance(loop.target, ast.Name) and all(
+            isinstance(strip(o), ast.Attribute) and strip(o).attr == "name" and isinstance(strip(o).value, ast.Name) and strip(o).value.id == loop.target.id
+            for o in origins(f, e))
+
+    if tested is not None:
+        same_job = all(
+            c.args and unparse(strip(c.args[0])) == unparse(strip(tested)) if c.args else False for c in upd_calls
+        ) if upd_calls else False
+        # ... and that job is the one the examined request stands for
+        same_job = same_job and _of_request(tested)
+    else:
+        # the decision is not an is_recovering answer about a nameable job (C19.R7 reports that): the counted job
+        # must still be the one the examined request stands for
+        same_job = bool(upd_calls) and all(bool(c.args) and _of_request(c.args[0]) for c in upd_calls)
     ctx.ob("R2", "a job that is not recovering is counted by `await _update_request(job)` on every path", bool(uids) and esc is None and same_job and all(is_awaited(c) for c in upd_calls),
            func=f, node=t.ast, instance="sync:update",
            message="the not-recovering branch can be left without `await self._update_request(<tested job>)`: the retry is not counted",
@@ -603,6 +606,8 @@ _UPD = f"{RFM}._update_request"
 STEPM = "streamflow.workflow.step"
 _SYNC = f"{RFM}._synchronize_workflows"
 
+_SYNC_TEST = "    for retry_request in retry_requests:\n        job_name = retry_request.name\n        if await self.is_recovering(job_name):"
+
 VARIANTS = [
     V("`<` becomes `<=`", FM_FILE, _UPD, "retry_request.version < self.max_retries", "retry_request.version <= self.max_retries", "R1", control=True),
     V("increment moved out of the guard", FM_FILE, _UPD, "    if self.max_retries is None or retry_request.version < self.max_retries:\n        retry_request.version += 1",
@@ -711,6 +716,21 @@ VARIANTS = [
     V("inverted guard with early raise", FM_FILE, _UPD,
       "    if self.max_retries is None or retry_request.version < self.max_retries:\n        retry_request.version += 1",
       "    if self.max_retries is not None and retry_request.version >= self.max_retries:\n        raise FailureHandlingException('exhausted')\n    if True:\n        retry_request.version += 1", None),
+    # the recovering / rollback decision in other shapes (shared finder `_util_D.recovering_decision`; seeded change C19/1
+    # made this rule refuse): where the is_recovering answer is obtained is C19.R7's obligation, counting is unaffected
+    V("is_recovering answers collected before the loop of _synchronize_workflows", FM_FILE, _SYNC, _SYNC_TEST,
+      "    active = {r.name: await self.is_recovering(r.name) for r in retry_requests}\n" + _SYNC_TEST.replace("await self.is_recovering(job_name)", "active[job_name]"), None),
+    V("is_recovering answers collected as a set of names before the loop", FM_FILE, _SYNC, _SYNC_TEST,
+      "    busy = set()\n    for r in retry_requests:\n        if await self.is_recovering(r.name):\n            busy.add(r.name)\n"
+      + _SYNC_TEST.replace("await self.is_recovering(job_name)", "job_name in busy"), None),
+    V("is_recovering answer through a boolean local", FM_FILE, _SYNC, "        if await self.is_recovering(job_name):",
+      "        being_recovered = await self.is_recovering(job_name)\n        if being_recovered:", None),
+    V("decision by the recorded workflow (not an is_recovering answer: C19.R7), rollback branch still counted", FM_FILE, _SYNC,
+      "if await self.is_recovering(job_name):", "if retry_request.workflow is not None:", None),
+    V("snapshot of is_recovering answers read with the wrong polarity", FM_FILE, _SYNC, _SYNC_TEST,
+      "    active = {r.name: await self.is_recovering(r.name) for r in retry_requests}\n" + _SYNC_TEST.replace("await self.is_recovering(job_name)", "not active[job_name]"), "R2"),
+    V("set snapshot holds the jobs that are NOT recovering", FM_FILE, _SYNC, _SYNC_TEST,
+      "    busy = {r.name for r in retry_requests if not await self.is_recovering(r.name)}\n" + _SYNC_TEST.replace("await self.is_recovering(job_name)", "job_name in busy"), "R2"),
     V("logging added to recover", FM_FILE, f"{RFM}.recover", "    await self._do_handle_failure(job, step)", "    logger.debug('handling')\n    await self._do_handle_failure(job, step)", None),
     V("is_recovering with a named tuple of statuses", FM_FILE, f"{RFM}.is_recovering",
       "    return self.context.scheduler.get_allocation(job_name).status in (Status.ROLLBACK, Status.RUNNING, Status.FIREABLE)",
